@@ -55,12 +55,12 @@ def make_request(rid, kind, delay):
     return layout.Request(f'rid,delay\n{rid},{delay}\n'.encode(), csv, {}, [csv])
 
 
-def serve(registry, feed, napps, processes, batches):
+def serve(registry, feed, napps, processes, batches, racing=False):
     """Run the real engine over the given batches (each batch is awaited concurrently). Returns per-request results."""
     from forml import io
     from forml.runtime import _service
     from harness import serving
-    inventory = serving.Inventory([serving.Desc(f'app{g}', g) for g in range(1, napps + 1)])
+    inventory = (serving.RacingInventory if racing else serving.Inventory)([serving.Desc(f'app{g}', g) for g in range(1, napps + 1)])
     results = {}
 
     async def main():
@@ -177,8 +177,25 @@ def main(chk):
         run['meta'] = {'processes': processes, 'batches': batches}
         runs.append(run)
         shutil.rmtree(tracedir, ignore_errors=True)
+    # ---- 2b. the interleaving of two first lookups of one application that TLC finds in DescriptorCache.tla, steered on
+    # the real dispatcher through the inventory (a public extension point)
+    res = chk.tlc('DescriptorCache', 'DescriptorCache.cfg', require=['Check', 'List', 'Diff', 'Update', 'Decide', 'Fetch'], workers=4)
+    asis = chk.tlc('DescriptorCache', 'DescriptorCacheAsIs.cfg', expect_ok=False, workers=2)
+    chk.selftest('model_refutes_decision_on_the_stale_difference', asis.violated == 'ValidNeverMissing')
+    os.environ.pop('FORML_VERIF_TRACE', None)
+    prediction._VERIF_TRACE = None
+    race_batch = [(base, 'app1', 'ok', 0), (base + 1, 'app1', 'ok', 0)]
+    base += 2
+    results = serve(registry, feed, napps, 2, [race_batch], racing=True)   # the dispatcher's thread pool has `processes` threads
+    for rid, app, kind, delay in race_batch:
+        total += 1
+        problem = judge(rid, app, kind, results.get(rid), directory)
+        if problem:
+            chk.fail(f'C16 two concurrent first requests of one application: {problem}', {'processes': 2, 'batches': [race_batch], 'rid': rid, 'racing': True})
+        else:
+            ok += 1
     chk.validated(ok)
-    chk.extra['engine'] = {'runs': len(configs), 'requests': total, 'conforming_responses': ok}
+    chk.extra['engine'] = {'runs': len(configs) + 1, 'requests': total, 'conforming_responses': ok}
     chk.sample({'pool': configs[0][0], 'batch': runs[0]['meta']['batches'][0][:6]})
     # ---- 3. hook traces against the task protocol
     if not any(len(r['procs'][0]) for r in runs):
